@@ -88,6 +88,16 @@ def detection_inputs(draw, min_vocab=2, max_vocab=5, sum_le_one=True, same_event
                 anns.append({"geometry": draw(geometry(allow_none=allow_geometryless)), "tags": true_tags()})
             for _ in range(draw(st.integers(0, 4))):
                 preds.append({"geometry": draw(geometry(allow_none=allow_geometryless)), "tags": pred_tags([t for a in anns for t in a["tags"]]), "conf": draw(st.integers(0, 20)) / 20})
+        if not same_events and anns and len(preds) < 5 and draw(st.integers(0, 3)) == 0:
+            # a prediction that starts exactly where an annotation ends (consecutive windows of a detector), at times that are not binary
+            # fractions (tenths of a second): the two share an instant, not a duration - they do not overlap
+            i = draw(st.integers(0, len(anns) - 1))
+            a_, b_, c_ = sorted(draw(st.lists(st.integers(0, 40), min_size=3, max_size=3, unique=True)))
+            box = draw(st.booleans())
+            anns[i]["geometry"] = {"type": "BoundingBox", "coordinates": [a_ / 10, 500.0, b_ / 10, 2500.0]} if box else {"type": "TimeInterval", "coordinates": [a_ / 10, b_ / 10]}
+            anns[i].pop("se_from", None)
+            touching = {"type": "BoundingBox", "coordinates": [b_ / 10, 500.0, c_ / 10, 2500.0]} if (box and draw(st.booleans())) else {"type": "TimeInterval", "coordinates": [b_ / 10, c_ / 10]}
+            preds.append({"geometry": touching, "tags": pred_tags(anns[i]["tags"]), "conf": draw(st.integers(0, 20)) / 20})
         # two hypotheses about ONE sound event (predictions wrapping the same SoundEvent object), two annotators of one event
         if not same_events:
             for lst, key in ((preds, "se_of_pred"), (anns, "se_of_ann")):
